@@ -1,10 +1,10 @@
-(* Proofs/HttpStreamAbs.v -- finite abstraction of a stream: which blocking yield it is paused at (data erased),
-   the two state-machine states, the summary of hooks fired and the ghost flags.  The lifecycle invariant is
-   membership of this abstraction in a computed table (Proofs/HttpStreamTable.v). *)
+(* Proofs/HttpStreamAbs.v -- finite abstraction of a stream (which blocking yield it is paused at, the two
+   state-machine states, the summary of the hooks fired, the ghost flags) and a set-valued abstract interpreter
+   a_* mirroring Model/HttpStream.v function by function: wherever the model tests data (buffers, heads, queue,
+   options) the abstract function returns both outcomes.  Soundness is proved in Proofs/HttpStreamSound.v. *)
 From Coq Require Import List Bool NArith.
 From MV Require Import Base.Bytes Model.HttpStream.
 Import ListNotations.
-Local Open Scope N_scope.
 
 Inductive pctag :=
 | PNone | PInvReq1 | PInvReq2 | PInvResp | PBsReq1 | PBsReq2 | PBsResp1 | PBsResp2
@@ -26,67 +26,192 @@ Definition tag_of (p : option await) : pctag :=
       end
   end.
 
-(* flags: upstream aborted reqerr_h req_fin resp_fin live req_stream *)
-Record ctl := mkC { k_cs : sst; k_ss : sst; k_m : mstate;
-                    k_up : bool; k_ab : bool; k_rqe : bool; k_rqf : bool; k_rsf : bool; k_live : bool; k_rs : bool }.
-Definition ctl_of (s : stream) : ctl :=
-  mkC (cs s) (ss s) (msum s) (upstream s) (aborted s) (reqerr_h s) (req_fin s) (resp_fin s) (live s) (req_stream s).
-
-(* states about which nothing is claimed: the run stopped (tunnel / crash) or left the modelled environment *)
-Definition top (s : stream) : bool := tunnel s || crashed s || venv s || vgap s.
-
-Definition m_eqb (a b : mstate) : bool :=
-  Bool.eqb (m_qh a) (m_qh b) && Bool.eqb (m_q a) (m_q b) && Bool.eqb (m_rh a) (m_rh b) && Bool.eqb (m_r a) (m_r b)
-  && Bool.eqb (m_er a) (m_er b) && Bool.eqb (m_cn a) (m_cn b) && Bool.eqb (m_ok a) (m_ok b)
-  && Bool.eqb (m_er2 a) (m_er2 b) && Bool.eqb (m_early a) (m_early b).
-Definition ctl_eqb (a b : ctl) : bool :=
-  sst_eqb (k_cs a) (k_cs b) && sst_eqb (k_ss a) (k_ss b) && m_eqb (k_m a) (k_m b)
-  && Bool.eqb (k_up a) (k_up b) && Bool.eqb (k_ab a) (k_ab b) && Bool.eqb (k_rqe a) (k_rqe b)
-  && Bool.eqb (k_rqf a) (k_rqf b) && Bool.eqb (k_rsf a) (k_rsf b) && Bool.eqb (k_live a) (k_live b)
-  && Bool.eqb (k_rs a) (k_rs b).
-
-Lemma sst_eqb_eq a b : sst_eqb a b = true -> a = b.
-Proof. destruct a, b; simpl; intros H; try discriminate; reflexivity. Qed.
-Lemma m_eqb_eq a b : m_eqb a b = true -> a = b.
-Proof.
-  destruct a, b; unfold m_eqb; simpl; intros H.
-  repeat (apply andb_prop in H; destruct H as [H ?]).
-  repeat match goal with E : Bool.eqb _ _ = true |- _ => apply eqb_prop in E end. subst. reflexivity.
-Qed.
-Lemma ctl_eqb_eq a b : ctl_eqb a b = true -> a = b.
-Proof.
-  destruct a, b; unfold ctl_eqb; simpl; intros H.
-  repeat (apply andb_prop in H; destruct H as [H ?]).
-  repeat match goal with E : Bool.eqb _ _ = true |- _ => apply eqb_prop in E end.
-  repeat match goal with E : sst_eqb _ _ = true |- _ => apply sst_eqb_eq in E end.
-  match goal with E : m_eqb _ _ = true |- _ => apply m_eqb_eq in E end.
-  subst. reflexivity.
-Qed.
-Definition inb (x : ctl) (l : list ctl) : bool := existsb (ctl_eqb x) l.
-Lemma inb_In x l : inb x l = true -> In x l.
-Proof.
-  unfold inb. intros H. apply existsb_exists in H. destruct H as [y [Hy E]].
-  apply ctl_eqb_eq in E. subst. exact Hy.
-Qed.
-
-(* numeric codes, used only to print / read the table *)
-Definition b2n (b : bool) : N := if b then 1 else 0.
-Definition sst_n (x : sst) : N :=
-  match x with SUninit => 0 | SWaitReqH => 1 | SConsumeReq => 2 | SStreamReq => 3 | SWaitRespH => 4
-             | SConsumeResp => 5 | SStreamResp => 6 | SDone => 7 | SErrored => 8 end.
-Definition after_n (a : after) : N := match a with AfNone => 0 | AfStreamHdr => 1 | AfStreamLate => 2 | AfConsume => 3 end.
-Definition pctag_n (p : pctag) : N :=
-  match p with
-  | PNone => 0 | PInvReq1 => 1 | PInvReq2 => 2 | PInvResp => 3 | PBsReq1 => 4 | PBsReq2 => 5 | PBsResp1 => 6 | PBsResp2 => 7
-  | PReqHeaders es => 8 + b2n es | PConnStreamHdr => 10 | PConnStreamLate => 11 | PConnConsume => 12
-  | PReqStream => 13 | PReq => 14 | PRespHSet => 15 | PRespH es => 16 + b2n es | PResponse a => 18 + b2n a
-  | PKilled => 20 | PPErr i af => 21 + 4 * b2n i + after_n af | PConnect => 29
+Record ast := mkAst { x_pc : pctag; x_cs : sst; x_ss : sst; x_m : mstate;
+                      x_up : bool; x_ab : bool; x_rqe : bool; x_rqf : bool; x_rsf : bool;
+                      x_live : bool; x_rs : bool; x_rq : bool;
+                      x_tun : bool; x_cr : bool; x_ve : bool; x_vg : bool }.
+Definition abs (s : stream) : ast :=
+  mkAst (tag_of (pc s)) (cs s) (ss s) (msum s) (upstream s) (aborted s) (reqerr_h s) (req_fin s) (resp_fin s)
+        (live s) (req_stream s) (is_some (req s)) (tunnel s) (crashed s) (venv s) (vgap s).
+Definition sx_pc (v : pctag) (s : ast) : ast := {| x_pc := v; x_cs := x_cs s; x_ss := x_ss s; x_m := x_m s; x_up := x_up s; x_ab := x_ab s; x_rqe := x_rqe s; x_rqf := x_rqf s; x_rsf := x_rsf s; x_live := x_live s; x_rs := x_rs s; x_rq := x_rq s; x_tun := x_tun s; x_cr := x_cr s; x_ve := x_ve s; x_vg := x_vg s |}.
+Definition sx_cs (v : sst) (s : ast) : ast := {| x_pc := x_pc s; x_cs := v; x_ss := x_ss s; x_m := x_m s; x_up := x_up s; x_ab := x_ab s; x_rqe := x_rqe s; x_rqf := x_rqf s; x_rsf := x_rsf s; x_live := x_live s; x_rs := x_rs s; x_rq := x_rq s; x_tun := x_tun s; x_cr := x_cr s; x_ve := x_ve s; x_vg := x_vg s |}.
+Definition sx_ss (v : sst) (s : ast) : ast := {| x_pc := x_pc s; x_cs := x_cs s; x_ss := v; x_m := x_m s; x_up := x_up s; x_ab := x_ab s; x_rqe := x_rqe s; x_rqf := x_rqf s; x_rsf := x_rsf s; x_live := x_live s; x_rs := x_rs s; x_rq := x_rq s; x_tun := x_tun s; x_cr := x_cr s; x_ve := x_ve s; x_vg := x_vg s |}.
+Definition sx_m (v : mstate) (s : ast) : ast := {| x_pc := x_pc s; x_cs := x_cs s; x_ss := x_ss s; x_m := v; x_up := x_up s; x_ab := x_ab s; x_rqe := x_rqe s; x_rqf := x_rqf s; x_rsf := x_rsf s; x_live := x_live s; x_rs := x_rs s; x_rq := x_rq s; x_tun := x_tun s; x_cr := x_cr s; x_ve := x_ve s; x_vg := x_vg s |}.
+Definition sx_up (v : bool) (s : ast) : ast := {| x_pc := x_pc s; x_cs := x_cs s; x_ss := x_ss s; x_m := x_m s; x_up := v; x_ab := x_ab s; x_rqe := x_rqe s; x_rqf := x_rqf s; x_rsf := x_rsf s; x_live := x_live s; x_rs := x_rs s; x_rq := x_rq s; x_tun := x_tun s; x_cr := x_cr s; x_ve := x_ve s; x_vg := x_vg s |}.
+Definition sx_ab (v : bool) (s : ast) : ast := {| x_pc := x_pc s; x_cs := x_cs s; x_ss := x_ss s; x_m := x_m s; x_up := x_up s; x_ab := v; x_rqe := x_rqe s; x_rqf := x_rqf s; x_rsf := x_rsf s; x_live := x_live s; x_rs := x_rs s; x_rq := x_rq s; x_tun := x_tun s; x_cr := x_cr s; x_ve := x_ve s; x_vg := x_vg s |}.
+Definition sx_rqe (v : bool) (s : ast) : ast := {| x_pc := x_pc s; x_cs := x_cs s; x_ss := x_ss s; x_m := x_m s; x_up := x_up s; x_ab := x_ab s; x_rqe := v; x_rqf := x_rqf s; x_rsf := x_rsf s; x_live := x_live s; x_rs := x_rs s; x_rq := x_rq s; x_tun := x_tun s; x_cr := x_cr s; x_ve := x_ve s; x_vg := x_vg s |}.
+Definition sx_rqf (v : bool) (s : ast) : ast := {| x_pc := x_pc s; x_cs := x_cs s; x_ss := x_ss s; x_m := x_m s; x_up := x_up s; x_ab := x_ab s; x_rqe := x_rqe s; x_rqf := v; x_rsf := x_rsf s; x_live := x_live s; x_rs := x_rs s; x_rq := x_rq s; x_tun := x_tun s; x_cr := x_cr s; x_ve := x_ve s; x_vg := x_vg s |}.
+Definition sx_rsf (v : bool) (s : ast) : ast := {| x_pc := x_pc s; x_cs := x_cs s; x_ss := x_ss s; x_m := x_m s; x_up := x_up s; x_ab := x_ab s; x_rqe := x_rqe s; x_rqf := x_rqf s; x_rsf := v; x_live := x_live s; x_rs := x_rs s; x_rq := x_rq s; x_tun := x_tun s; x_cr := x_cr s; x_ve := x_ve s; x_vg := x_vg s |}.
+Definition sx_live (v : bool) (s : ast) : ast := {| x_pc := x_pc s; x_cs := x_cs s; x_ss := x_ss s; x_m := x_m s; x_up := x_up s; x_ab := x_ab s; x_rqe := x_rqe s; x_rqf := x_rqf s; x_rsf := x_rsf s; x_live := v; x_rs := x_rs s; x_rq := x_rq s; x_tun := x_tun s; x_cr := x_cr s; x_ve := x_ve s; x_vg := x_vg s |}.
+Definition sx_rs (v : bool) (s : ast) : ast := {| x_pc := x_pc s; x_cs := x_cs s; x_ss := x_ss s; x_m := x_m s; x_up := x_up s; x_ab := x_ab s; x_rqe := x_rqe s; x_rqf := x_rqf s; x_rsf := x_rsf s; x_live := x_live s; x_rs := v; x_rq := x_rq s; x_tun := x_tun s; x_cr := x_cr s; x_ve := x_ve s; x_vg := x_vg s |}.
+Definition sx_rq (v : bool) (s : ast) : ast := {| x_pc := x_pc s; x_cs := x_cs s; x_ss := x_ss s; x_m := x_m s; x_up := x_up s; x_ab := x_ab s; x_rqe := x_rqe s; x_rqf := x_rqf s; x_rsf := x_rsf s; x_live := x_live s; x_rs := x_rs s; x_rq := v; x_tun := x_tun s; x_cr := x_cr s; x_ve := x_ve s; x_vg := x_vg s |}.
+Definition sx_tun (v : bool) (s : ast) : ast := {| x_pc := x_pc s; x_cs := x_cs s; x_ss := x_ss s; x_m := x_m s; x_up := x_up s; x_ab := x_ab s; x_rqe := x_rqe s; x_rqf := x_rqf s; x_rsf := x_rsf s; x_live := x_live s; x_rs := x_rs s; x_rq := x_rq s; x_tun := v; x_cr := x_cr s; x_ve := x_ve s; x_vg := x_vg s |}.
+Definition sx_cr (v : bool) (s : ast) : ast := {| x_pc := x_pc s; x_cs := x_cs s; x_ss := x_ss s; x_m := x_m s; x_up := x_up s; x_ab := x_ab s; x_rqe := x_rqe s; x_rqf := x_rqf s; x_rsf := x_rsf s; x_live := x_live s; x_rs := x_rs s; x_rq := x_rq s; x_tun := x_tun s; x_cr := v; x_ve := x_ve s; x_vg := x_vg s |}.
+Definition sx_ve (v : bool) (s : ast) : ast := {| x_pc := x_pc s; x_cs := x_cs s; x_ss := x_ss s; x_m := x_m s; x_up := x_up s; x_ab := x_ab s; x_rqe := x_rqe s; x_rqf := x_rqf s; x_rsf := x_rsf s; x_live := x_live s; x_rs := x_rs s; x_rq := x_rq s; x_tun := x_tun s; x_cr := x_cr s; x_ve := v; x_vg := x_vg s |}.
+Definition sx_vg (v : bool) (s : ast) : ast := {| x_pc := x_pc s; x_cs := x_cs s; x_ss := x_ss s; x_m := x_m s; x_up := x_up s; x_ab := x_ab s; x_rqe := x_rqe s; x_rqf := x_rqf s; x_rsf := x_rsf s; x_live := x_live s; x_rs := x_rs s; x_rq := x_rq s; x_tun := x_tun s; x_cr := x_cr s; x_ve := x_ve s; x_vg := v |}.
+(* ---------- abstract interpreter (set-valued) *)
+Definition a_crash (a : ast) : list ast := [sx_cr true a].
+Definition a_emit_hook (h : hook) (t : pctag) (a : ast) : ast := sx_pc t (sx_m (mon_step (x_m a) h) a).
+Definition a_finish_killed (a : ast) : ast := sx_cs SErrored (sx_ss SErrored (sx_live false a)).
+Definition a_check_killed (emit : bool) (a : ast) : list (option ast) :=
+  [None; Some (if emit then a_emit_hook HkError PKilled a else a_finish_killed a)].
+Definition a_flow_done (a : ast) : list ast :=
+  let a1 := sx_live false a in [sx_cr true a1; sx_tun true a1; a1].
+Definition a_send_response (already : bool) (a : ast) : list ast :=
+  [sx_cr true a; a_emit_hook HkResponse (PResponse already) a].
+Definition a_send_response_cont (a : ast) : list ast :=
+  let a1 := sx_ss SDone a in
+  a_finish_killed a1 :: sx_cr true a1 :: (if sst_eqb (x_cs a1) SDone then a_flow_done a1 else [a1]).
+Definition a_apply_after (af : after) (a : ast) : ast :=
+  match af with
+  | AfNone | AfConsume => a
+  | AfStreamHdr => sx_ss SWaitRespH (sx_cs SErrored a)
+  | AfStreamLate => sx_cs SErrored a
   end.
-Fixpoint mix (l : list (N * N)) : N := match l with [] => 0 | (radix, d) :: r => d + radix * mix r end.
-Definition m_n (m : mstate) : N :=
-  mix [(2, b2n (m_qh m)); (2, b2n (m_q m)); (2, b2n (m_rh m)); (2, b2n (m_r m)); (2, b2n (m_er m)); (2, b2n (m_cn m));
-       (2, b2n (m_ok m)); (2, b2n (m_er2 m)); (2, b2n (m_early m))].
-Definition code (p : pctag) (c : ctl) : N :=
-  mix [(32, pctag_n p); (16, sst_n (k_cs c)); (16, sst_n (k_ss c)); (512, m_n (k_m c));
-       (2, b2n (k_up c)); (2, b2n (k_ab c)); (2, b2n (k_rqe c)); (2, b2n (k_rqf c)); (2, b2n (k_rsf c));
-       (2, b2n (k_live c)); (2, b2n (k_rs c))].
+Definition a_perr_tail (isreq : bool) (af : after) (a : ast) : list ast :=
+  [a_apply_after af (a_finish_killed a);
+   a_apply_after af (sx_live false (if isreq then a else sx_ss SErrored a))].
+Definition a_handle_perr (isreq : bool) (af : after) (a : ast) : list ast :=
+  let ss_fin := sst_eqb (x_ss a) SDone || sst_eqb (x_ss a) SErrored in
+  let talk := isreq && (sst_eqb (x_cs a) SStreamReq || sst_eqb (x_cs a) SDone) && negb ss_fin in
+  let need := negb (sst_eqb (x_cs a) SErrored || ss_fin) in
+  let a1 := if talk then sx_ab true (sx_cs SErrored a) else a in
+  if need then [a_emit_hook HkError (PPErr isreq af) a1] else a_perr_tail isreq af a1.
+Definition a_start_request_stream (late : bool) (a : ast) : list ast :=
+  [sx_cr true a; sx_pc (if late then PConnStreamLate else PConnStreamHdr) a].
+Definition a_resume_conn_stream (late ok : bool) (a : ast) : list ast :=
+  if ok then
+    let a1 := sx_cs SStreamReq (sx_up true a) in
+    [if late then a1 else sx_ss SWaitRespH a1]
+  else a_handle_perr false (if late then AfStreamLate else AfStreamHdr) a.
+Definition a_resume_conn_consume (ok : bool) (a : ast) : list ast :=
+  if ok then [sx_up true a] else a_handle_perr false AfConsume a.
+(* (stop, state) *)
+Definition a_cbs_req (a : ast) : list (bool * ast) :=
+  (false, a) :: (true, a_emit_hook HkError PBsReq2 a) :: (true, a_emit_hook HkReqHeaders PBsReq1 a)
+  :: (false, sx_rs true a) :: map (fun x => (true, x)) (a_start_request_stream true (sx_rs true a)).
+Definition a_state_wait_req_headers (inval connect hashost es : bool) (a0 : ast) : list ast :=
+  let a := sx_live true (sx_rq true a0) in
+  if inval then [a_emit_hook HkReqHeaders PInvReq1 a]
+  else if connect then [a_emit_hook HkConnect PConnect (sx_cs SDone a)]
+  else if negb hashost then [sx_cs SErrored a]
+  else flat_map (fun p : bool * ast => if fst p then [snd p] else [a_emit_hook HkReqHeaders (PReqHeaders es) (snd p)])
+                (if es then [(false, a)] else a_cbs_req a).
+Definition a_cont_req_headers (es : bool) (a : ast) : list ast :=
+  a_emit_hook HkError PKilled a ::
+  (if x_rs a && negb es then a_start_request_stream false a else [sx_ss SWaitRespH (sx_cs SConsumeReq a)]).
+Inductive aev := AReqHeaders (inval connect hashost es : bool) | AReqData | AReqEOM | AReqErr
+               | ARespHeaders (inval es : bool) | ARespData | ARespEOM | ARespErr.
+Definition a_state_consume_req (e : aev) (a : ast) : list ast :=
+  match e with
+  | AReqData => map snd (a_cbs_req a)
+  | AReqEOM => [a_emit_hook HkRequest PReq (sx_cs SDone a)]
+  | _ => a_crash a
+  end.
+Definition a_cont_req (a : ast) : list ast :=
+  [a_emit_hook HkError PKilled a; a_emit_hook HkRespHeaders PRespHSet a; sx_pc PConnConsume a].
+Definition a_state_stream_req (e : aev) (a : ast) : list ast :=
+  match e with
+  | AReqData => [a]
+  | AReqEOM => [a_emit_hook HkRequest PReqStream a]
+  | _ => a_crash a
+  end.
+Definition a_cont_req_stream (a : ast) : list ast :=
+  let a1 := sx_cs SDone a in if sst_eqb (x_ss a1) SDone then a_flow_done a1 else [a1].
+Definition a_start_response_stream (a : ast) : list ast := [sx_cr true a; sx_ss SStreamResp a].
+Definition a_cbs_resp (a : ast) : list (bool * ast) :=
+  (false, a) :: (true, a_emit_hook HkError PBsResp2 a) :: (true, a_emit_hook HkRespHeaders PBsResp1 a)
+  :: map (fun x => (true, x)) (a_start_response_stream a).
+Definition a_state_wait_resp_headers (inval es : bool) (a : ast) : list ast :=
+  flat_map (fun p : bool * ast =>
+              if fst p then [snd p]
+              else if inval then [a_emit_hook HkError PInvResp (snd p)]
+              else [a_emit_hook HkRespHeaders (PRespH es) (snd p)])
+           (if es then [(false, a)] else a_cbs_resp a).
+Definition a_cont_resp_headers (es : bool) (a : ast) : list ast :=
+  a_emit_hook HkError PKilled a :: sx_ss SConsumeResp a :: (if es then [] else a_start_response_stream a).
+Definition a_state_consume_resp (e : aev) (a : ast) : list ast :=
+  match e with
+  | ARespData => map snd (a_cbs_resp a)
+  | ARespEOM => a_send_response false a
+  | _ => a_crash a
+  end.
+Definition a_state_stream_resp (e : aev) (a : ast) : list ast :=
+  sx_cr true a ::
+  match e with
+  | ARespData => [a]
+  | ARespEOM => a_send_response true a
+  | _ => a_crash a
+  end.
+Definition a_cont_connect (a : ast) : list ast := [a_finish_killed a; sx_tun true a].
+
+Definition aev_req_side (e : aev) : bool :=
+  match e with AReqHeaders _ _ _ _ | AReqData | AReqEOM | AReqErr => true | _ => false end.
+Definition aev_first (e : aev) : bool := match e with AReqHeaders _ _ _ _ => true | _ => false end.
+Definition a_note_event (e : aev) (a : ast) : ast :=
+  let fresh := sst_eqb (x_cs a) SWaitReqH && negb (x_rq a) in
+  let bad_env := (fresh && negb (aev_first e)) || (negb fresh && aev_first e)
+                 || (negb (aev_req_side e) && negb (x_up a))
+                 || (aev_req_side e && x_rqe a) in
+  let a1 := if bad_env then sx_ve true a else a in
+  let a2 := if negb (aev_req_side e) && x_ab a then sx_vg true a1 else a1 in
+  match e with
+  | AReqErr => sx_rqf true (sx_rqe true a2)
+  | AReqEOM => sx_rqf true a2
+  | ARespEOM | ARespErr => sx_rsf true a2
+  | _ => a2
+  end.
+Definition a_run_event (e : aev) (a0 : ast) : list ast :=
+  let a := a_note_event e a0 in
+  match e with
+  | AReqErr => a_handle_perr true AfNone a
+  | ARespErr => a_handle_perr false AfNone a
+  | AReqHeaders _ _ _ _ | AReqData | AReqEOM =>
+      match x_cs a with
+      | SErrored => [a]
+      | SWaitReqH => match e with AReqHeaders i c h es => a_state_wait_req_headers i c h es a | _ => a_crash a end
+      | SConsumeReq => a_state_consume_req e a
+      | SStreamReq => a_state_stream_req e a
+      | _ => a_crash a
+      end
+  | ARespHeaders _ _ | ARespData | ARespEOM =>
+      match x_ss a with
+      | SErrored => [a]
+      | SWaitRespH => match e with ARespHeaders i es => a_state_wait_resp_headers i es a | _ => a_crash a end
+      | SConsumeResp => a_state_consume_resp e a
+      | SStreamResp => a_state_stream_resp e a
+      | _ => a_crash a
+      end
+  end.
+(* continuation after a completed blocking command; ok = the connection attempt succeeded *)
+Definition a_resume (t : pctag) (ok : bool) (a : ast) : list ast :=
+  match t with
+  | PNone => a_crash a
+  | PInvReq1 => [a_emit_hook HkError PInvReq2 a]
+  | PInvReq2 | PInvResp => [sx_cs SErrored (sx_ss SErrored (sx_live false a))]
+  | PBsReq1 => [a_emit_hook HkError PBsReq2 a]
+  | PBsReq2 => [sx_live false (sx_cs SErrored a)]
+  | PBsResp1 => [a_emit_hook HkError PBsResp2 a]
+  | PBsResp2 => [sx_live false (sx_ss SErrored (sx_cs SErrored a))]
+  | PReqHeaders es => a_cont_req_headers es a
+  | PConnStreamHdr => a_resume_conn_stream false ok a
+  | PConnStreamLate => a_resume_conn_stream true ok a
+  | PConnConsume => a_resume_conn_consume ok a
+  | PReqStream => a_cont_req_stream a
+  | PReq => a_cont_req a
+  | PRespHSet => a_emit_hook HkError PKilled a :: a_send_response false a
+  | PRespH es => a_cont_resp_headers es a
+  | PResponse _ => a_send_response_cont a
+  | PKilled => [a_finish_killed a]
+  | PPErr isreq af => a_perr_tail isreq af a
+  | PConnect => a_cont_connect a
+  end.
+Definition a_apply_act (a : ast) : list ast := [a; sx_live false a; sx_rs true a; sx_rs true (sx_live false a)].
+
+Definition aev_of (o : opts) (e : hev) : aev :=
+  match e with
+  | EReqHeaders h es => AReqHeaders (o_val o && negb (h_valid h)) (meth_eqb (h_meth h) MConnect) (h_hashost h) es
+  | EReqData _ => AReqData | EReqEOM => AReqEOM | EReqErr _ => AReqErr
+  | ERespHeaders h es => ARespHeaders (o_val o && negb (h_valid h)) es
+  | ERespData _ => ARespData | ERespEOM => ARespEOM | ERespErr _ => ARespErr
+  end.
